@@ -232,6 +232,27 @@ let dispatch (w : string list) : string =
       | Err -> "err"
       | Panic -> "panic")
   | [ "star.parse"; b ] -> pay_to_string (parse_payload (bytes_of_hex b))
+  | [ "wasm.create"; m; t; e; x ] -> (
+      if x = "-" then "driver-error:no share point" else
+      match wasm_create (bytes_of_hex m) (n_of_string t) (bytes_of_hex e) (fp_of_hex x) with
+      | Ok (Some js) -> hex_of_bytes js
+      | Ok None -> "nofuel"
+      | Err -> "err"
+      | Panic -> "panic")
+  | [ "wasm.group"; ser; e ] -> (
+      match wasm_group (bytes_of_hex ser) (bytes_of_hex e) with
+      | Ok (Some k) -> "some " ^ hex_of_bytes k
+      | Ok None -> "none"
+      | Err -> "err"
+      | Panic -> "panic")
+  | "agg.run" :: t :: e :: wire -> (
+      match agg_run (n_of_string t) (bytes_of_hex e) (List.map bytes_of_hex wire) with
+      | Ok outs ->
+          let items = List.map (fun (m, aux) ->
+              hex_of_bytes m ^ ":" ^ String.concat "," (List.sort compare (List.map hex_of_opt aux))) outs in
+          "ok " ^ String.concat " " (List.sort compare items)
+      | Err -> "err"
+      | Panic -> "panic")
   | "ggm.run" :: k0 :: k1 :: s0 :: s1 :: ops ->
       ggm_run_string (bytes_of_hex k0) (bytes_of_hex k1) (bytes_of_hex s0) (bytes_of_hex s1) (List.map gop_of_string ops)
   | _ -> failwith "unknown command"
